@@ -340,11 +340,55 @@ def check_shared_objective(pr, rep=None, want=None):
     return fails
 
 
+def check_declared_at_construction(rep):
+    """bounds and domains given to the CONSTRUCTORS (scalar, vector, matrix, symmetric matrix; every domain; integral,
+    fractional, one-sided, infinite and absent bounds) are what the problem reports - binary containers report [0, 1]"""
+    import optyx
+
+    fails = Fails()
+    inf = float("inf")
+    boxes = [(0.0, 10.0), (0.5, 3.5), (-1.5, 2.25), (None, 2.5), (0.25, None), (None, None), (-inf, inf), (-2, 7), (1e-9, 1 - 1e-9)]
+    for domain in ("continuous", "integer", "binary"):
+        for lb, ub in boxes:
+            kw = {k: v for k, v in (("lb", lb), ("ub", ub)) if v is not None}
+            routes = {
+                "scalar": lambda: [optyx.Variable("n", domain=domain, **kw)],
+                "vector": lambda: list(optyx.VectorVariable("k", 3, domain=domain, **kw)),
+                "matrix": lambda: [e for row in optyx.MatrixVariable("A", 2, 2, domain=domain, **kw)._variables for e in row],
+                "symmetric": lambda: [optyx.MatrixVariable("S", 2, 2, symmetric=True, domain=domain, **kw)[i, j] for i, j in ((0, 0), (0, 1), (1, 1))],
+            }
+            for rname, mk in routes.items():
+                try:
+                    vs = mk()
+                    o = vs[0]
+                    for v in vs[1:]:
+                        o = o + v
+                    extra = optyx.Variable("zz", lb=-1.0, ub=1.0)
+                    P = optyx.Problem().minimize(o + extra)
+                    got = {v.name: (tuple(b), v.domain) for v, b in zip(P.variables, P.get_bounds())}
+                except Exception as ex:
+                    rep.outcomes["constructor-rejected:" + type(ex).__name__] += 1
+                    continue
+                rep.states += 1
+                rep.transitions += 3
+                rep.evaluations += len(vs)
+                rep.nt(("declared", domain, lb, ub, rname))
+                exp_b = (0.0, 1.0) if domain == "binary" else (lb, ub)
+                for v in vs:
+                    g = got.get(v.name)
+                    if g is None:
+                        fails.add("declared-variable-missing", route=rname, domain=domain, name=v.name)
+                    elif g[1] != domain or g[0][0] != exp_b[0] or g[0][1] != exp_b[1]:
+                        fails.add("declared-bounds-not-reported", route=rname, domain=domain, name=v.name, declared=(lb, ub), got=g)
+                        break
+    return fails
+
+
 NSH = 32
 
 
 def shards(tier, seed):
-    return [("P", i, NSH) for i in range(NSH)] + [("H", 1, 1), ("H", 2, 1)]
+    return [("P", i, NSH) for i in range(NSH)] + [("H", 1, 1), ("H", 2, 1), ("D", 0, 1)]
 
 
 def child_main():
@@ -391,6 +435,10 @@ def explore(item, tier, seed):
             if rep.states % 301 == 1:
                 rep.sample({"label": lab, "problem": pr})
         return rep
+    if kind == "D":
+        for k, d in check_declared_at_construction(rep):
+            rep.violation(k, {"label": ("declared-at-construction", d.get("route"), d.get("domain")), "problem": None, "declared": True}, **d)
+        return rep
     # hash-seed children
     env = dict(os.environ, PYTHONHASHSEED=str(i))
     r = subprocess.run([sys.executable, "-c", "from checks import c16; c16.child_main()", "x", tier],
@@ -411,10 +459,14 @@ def explore(item, tier, seed):
 
 def culprit(v):
     lab = v["case"]["label"]
+    if v["case"].get("declared"):
+        return {"kind": v["kind"], "route": lab[1], "domain": lab[2]}
     return {"kind": v["kind"], "objective": lab[0], "constraints": sorted(lab[1:])[:1] if v["kind"] != "variable-order" else []}
 
 
 def replay(art):
+    if art["violation"]["case"].get("declared"):
+        return [{"kind": k, "detail": d} for k, d in check_declared_at_construction(Report()) if k == art["culprit"]["kind"]]
     pr = detuple(art["violation"]["case"]["problem"])
     if art["violation"]["case"].get("shared"):
         return [{"kind": k, "detail": d} for k, d in check_shared_objective(pr, None, want=art["culprit"]["kind"])]
